@@ -1,6 +1,7 @@
 package verif
 
 import (
+	"bytes"
 	"fmt"
 	"net"
 	"strings"
@@ -30,8 +31,153 @@ type c13sess struct {
 	wantS   int64
 }
 
+// c13stalledAcceptor: the server application is busy and does not call Accept for a while. Meanwhile session A
+// opens and closes again and session B opens (it is given A's identifier). When the application finally accepts,
+// it gets two connections: they must be two different sessions, B's data must arrive on exactly one of them, and
+// closing the handle of the closed session A must not end the live session B.
+func c13stalledAcceptor(r *Run) {
+	c := r.Ch
+	addr := fmt.Sprintf("%s:%d", ServerIP, 5353)
+	gate := make(chan struct{})
+	_, accepted, err := startDnsServerGated(r, addr, gate)
+	if err != nil {
+		r.Fail("world-setup", "dns server: %v", err)
+		return
+	}
+	r.Info["history"] = "stalled-acceptor"
+	pol := &NetPolicy{Whole: true}
+	open := func(ip string) *sdns.ClientDnsConnection {
+		dc, err := dialDnsClient(r, addr, ip)
+		if err != nil {
+			r.Fail("world-setup", "dns client: %v", err)
+			return nil
+		}
+		var hsErr error
+		done := false
+		go func() {
+			hsErr = dc.Handshake()
+			done = true
+		}()
+		out := r.Drive(pol, func() bool { return done }, nil, 3*time.Minute, 40*time.Minute)
+		if !done || hsErr != nil {
+			r.FailSig("handshake-on-clean-path", "history=stalled-acceptor", "%s: handshake failed on a clean path while the acceptor was stalled: %v", out, hsErr)
+			return nil
+		}
+		return dc
+	}
+	closers := 1 + c.Pick(3, "sessions-closed-before-accept")
+	for i := 0; i < closers; i++ {
+		a := open(fmt.Sprintf("10.0.2.%d", 60+i))
+		if a == nil {
+			return
+		}
+		go a.Close()
+		r.RunFor(time.Duration(1+c.Pick(5, "after-close-s")) * time.Second)
+	}
+	b := open("10.0.2.80")
+	if b == nil {
+		return
+	}
+	r.OnCleanup(func() { b.Close() })
+	close(gate)
+	var pool []net.Conn
+	for i := 0; i < 20; i++ {
+		r.RunFor(200 * time.Millisecond)
+		for more := true; more; {
+			select {
+			case cn := <-accepted:
+				pool = append(pool, cn)
+			default:
+				more = false
+			}
+		}
+	}
+	sig := "history=stalled-acceptor"
+	for i := range pool {
+		for j := i + 1; j < len(pool); j++ {
+			if pool[i] == pool[j] {
+				r.FailSig("session-handed-out-twice", sig, "Accept returned the same connection twice (entries %d and %d of %d): the application would serve one session from two handlers", i, j, len(pool))
+				return
+			}
+		}
+	}
+	// B's data arrives on exactly one accepted connection
+	got := make([][]byte, len(pool))
+	for i, cn := range pool {
+		i, cn := i, cn
+		go func() {
+			buf := make([]byte, 4096)
+			for {
+				n, err := cn.Read(buf)
+				got[i] = append(got[i], buf[:n]...)
+				if err != nil {
+					return
+				}
+			}
+		}()
+	}
+	send := func(key uint64, n int) []byte {
+		p := make([]byte, n)
+		prfFill(key, 0, p)
+		go b.Write(p)
+		return p
+	}
+	arrived := func(p []byte) int {
+		at := -1
+		total := 0
+		for i := range got {
+			total += len(got[i])
+			if bytes.HasSuffix(got[i], p) {
+				at = i
+			}
+		}
+		_ = total
+		return at
+	}
+	p1 := send(0xc13a, 50+c.Pick(400, "b-bytes"))
+	out := r.Drive(pol, func() bool { return arrived(p1) >= 0 }, nil, 2*time.Minute, 20*time.Minute)
+	live := arrived(p1)
+	if live < 0 {
+		r.FailSig("live-session-data-lost", sig, "%s: the bytes written by the live session did not arrive intact on any of the %d accepted connections (received %v bytes)", out, len(pool), lens(got))
+		return
+	}
+	for i := range got {
+		if i != live && len(got[i]) > 0 {
+			r.FailSig("cross-session-delivery", sig, "accepted connection %d (not the live session's) delivered %d bytes", i, len(got[i]))
+			return
+		}
+	}
+	// the application closes the handles of the sessions that were closed before it accepted them
+	for i, cn := range pool {
+		if i != live {
+			cn.Close()
+		}
+	}
+	r.RunFor(2 * time.Second)
+	p2 := send(0xc13b, 50+c.Pick(400, "b-bytes-2"))
+	out = r.Drive(pol, func() bool { return arrived(p2) >= 0 }, nil, 2*time.Minute, 20*time.Minute)
+	if arrived(p2) != live {
+		r.FailSig("live-session-terminated", sig, "%s: after the application closed the handles of the %d sessions that had closed before being accepted, the live session no longer delivers (received %v bytes)", out, len(pool)-1, lens(got))
+		return
+	}
+	r.NonTriv = true
+	r.Count("stalled_acceptor_histories")
+}
+
+func lens(b [][]byte) []int {
+	var out []int
+	for _, x := range b {
+		out = append(out, len(x))
+	}
+	return out
+}
+
 func scenarioC13(r *Run) {
 	c := r.Ch
+	if c.Chance(1, 8, "stalled-acceptor") {
+		c13stalledAcceptor(r)
+		return
+	}
 	addr := fmt.Sprintf("%s:%d", ServerIP, 5353)
 	lnr, accepted, err := startDnsServer(r, addr)
 	if err != nil {
